@@ -393,8 +393,20 @@ def emit(an, path):
              "namespace Psec.Generated", "open Psec.Conc", "",
              "def functions : List FnEffect := ["]
     rows = []
+    # A private helper method (leading underscore, not a dunder) that writes its own `self` and is called by name from
+    # somewhere in the package is judged through its callers: `close_self_writes` has already charged every caller with the
+    # write, and the callers are held against the list of permitted mutators. Its own record therefore carries no self
+    # write, so that renaming or extracting private helpers of the permitted mutators changes nothing. A private method that
+    # is never called by name (reached through a dispatch table only) keeps its record and is judged directly.
+    called = {name for g in an.fns.values() for kind, name, _ in g.calls if kind == "attr"}
     for q in sorted(an.fns):
         f = an.fns[q]
+        leaf = q.split(".")[-1] if not q.endswith((".setter", ".getter", ".deleter")) else q.split(".")[-2]
+        private = leaf.startswith("_") and not (leaf.startswith("__") and leaf.endswith("__"))
+        if private and leaf in called and f.cls is not None:
+            f = FnInfo(f.qual, f.module, f.cls, f.node)
+            g = an.fns[q]
+            f.shared, f.arg, f.unknown, f.selfw = g.shared, g.arg, g.unknown, []
         rows.append(f"  {{ name := {lean_str(q)}, sharedWrites := {lean_list(sorted(set(f.shared)))}, argWrites := {lean_list(sorted(set(f.arg)))}, "
                     f"selfWrites := {lean_list(sorted(set(f.selfw)))}, unknown := {lean_list(sorted(set(f.unknown)))} }}")
     lines.append(",\n".join(rows))
